@@ -50,6 +50,25 @@ def curve_base (rng):
     return dict (f = f, geo = [c, w], fam = 'curve-' + c ['k'], media = None, feeds = feeds, src = [], loads = [])
 # end def curve_base
 
+def lattice_base (rng):
+    """ wires between points with whole-number coordinates (metres), as one writes them by hand - and as python
+        ints through the library """
+    f    = float (rng.choice ([7.1, 10.1, 14.2]))
+    gnd  = bool (rng.random () < 0.4)
+    z0   = 0 if gnd else int (rng.integers (-3, 4))
+    o    = np.array ([int (rng.integers (-4, 5)), int (rng.integers (-4, 5)), z0])
+    n1   = int (rng.integers (2, 6))
+    up   = np.array ([0, 0, 1])
+    top  = o + up * n1
+    geo  = [gen.wire (n1, o, top, 0.01)]
+    feeds = [dict (at = (o + up).tolist () if n1 > 1 else top.tolist (), dir = up.tolist ())]
+    for d in rng.permutation ([[1, 0, 0], [0, 1, 0], [-1, 0, 0], [0, -1, 0]]) [: int (rng.integers (1, 3))]:
+        n2 = int (rng.integers (2, 5))
+        far = top + np.array (d) * n2
+        geo.append (gen.wire (n2, top, far, 0.01) if rng.random () < 0.5 else gen.wire (n2, far, top, 0.01))
+    return dict (f = f, geo = geo, fam = 'lattice', media = ([[0, 0, 0]] if gnd else None), feeds = feeds, src = [], loads = [])
+# end def lattice_base
+
 def make (c):
     rng = np.random.default_rng ([c ['seed'], 5, c ['i']])
     if 'corpus' in c:
@@ -65,7 +84,9 @@ def make (c):
                                                    and not any (g.get ('taper') and (g ['taper'][1] or g ['taper'][2]) for g in spec ['geo'])
                           , taper = False)
     u = rng.random ()
-    if u < 0.12:
+    if c ['i'] % 9 == 4:
+        spec = lattice_base (np.random.default_rng ([c ['seed'], 58, c ['i']]))
+    elif u < 0.12:
         spec = curve_base (rng)
     elif u < 0.6:
         spec = gen.fam_free (rng, equal_junction = bool (rng.random () < 0.5), shift = False)
@@ -295,6 +316,16 @@ def check (c):
                     , violations = [dict (monitor = 'geometry.options', key = 'moved-model-rejected', msg = 'the antenna is accepted, the same antenna moved by %s is rejected: %s' % ([t [0] for t in spec ['motion']['tr']], str (e) [:120]))])
     observe.solve (mA)
     observe.solve (mB)
+    # the same requests made through the classes of the library (whole numbers as python ints; the container's
+    # tags computed before, after, or in the middle of filling it when every request is for the whole structure)
+    akw = [dict (), dict (ints = True)] + ([dict (tags = 'late', ints = True), dict (tags = 'split'), dict (tags = 'split', ints = True), dict (tags = 'late')] if not spec ['motion']['per_tag'] else [])
+    akw = akw [int (common.sha (spec ['motion']), 16) % len (akw)]
+    try:
+        mP = gen.build (b1, route = 'api', **akw)
+    except common.Rejected as e:
+        return dict ( status = 'violation', sig = 'moved-rejected', nontrivial = True
+                    , violations = [dict (monitor = 'geometry.api', key = 'moved-model-rejected', msg = 'the moved antenna is accepted through the command line and rejected through the library (%s): %s' % (akw, str (e) [:120]))])
+    observe.solve (mP)
     cond = max (observe.cond_number (mA), observe.cond_number (mB))
     tol  = observe.tol_cond (cond)
     if tol is None:
@@ -327,6 +358,15 @@ def check (c):
         judge ('geometry.radius', rr + 1e-300, 1e-12, 'radius not scaled with the structure: relative deviation %.3g' % rr)
     else:
         viol.append (dict (monitor = 'geometry.options', key = 'geometry.options', msg = 'different number of segments'))
+    nodesP = [np.asarray (p, float) for g in mP.geo for s in g.segments for p in (s.p1, s.p2)]
+    if len (nodesP) == len (nodesB):
+        d = max (np.linalg.norm (a - b) for a, b in zip (nodesP, nodesB)) / size
+        judge ('geometry.api', d, 1e-9, 'segment end points of the model moved through the library (%s) deviate %.3g of the size from the model moved through the command line' % (akw, d))
+        for sa, sb in zip (mB.sources, mP.sources):
+            rel = abs (sa.impedance - sb.impedance) / abs (sb.impedance)
+            judge ('impedance.api', rel, tol, 'feed impedance %r through the command line, %r through the library (%s)' % (sa.impedance, sb.impedance, akw), key = None if rel <= tol else 'impedance.api')
+    else:
+        viol.append (dict (monitor = 'geometry.api', key = 'geometry.api', msg = 'moved through the library (%s): %d segment ends, through the command line %d' % (akw, len (nodesP), len (nodesB))))
     if b2 is not None:
         mC = gen.build (b2)
         nodesC = [np.asarray (p, float) for g in mC.geo for s in g.segments for p in (s.p1, s.p2)]
